@@ -11,6 +11,7 @@ import InvProxy.Model.Sessions
 import InvProxy.Model.Relay
 import InvProxy.Model.ShimLife
 import InvProxy.Model.RespPath
+import InvProxy.Model.AppAuth
 open InvProxy Driver
 
 /-- suite `backoff`: `target <n>` ↦ un-jittered target in ns;  `loop <pattern of 0/1>` ↦ retry counts slept with -/
@@ -341,11 +342,39 @@ def srwStep (_ : Unit) : List String → Unit × String
     ((), s!"{r.status} {canonHeader r.hdr} {hexOf r.body} {canonHeader r.trailer}")
   | _ => ((), "bad-op")
 
+/-- suite `appauth`: `backend id user enduser prefix` | `store bid rid user` | `agent <oauth|-> ep bid rid` | `admin <isAdmin> op` -/
+def appauthStep (s : AppAuth.St) : List String → AppAuth.St × String
+  | ["backend", id, u, eu, pre] =>
+    let b : Backend := { BackendID := unhexD id, BackendUser := unhexD u, EndUser := unhexD eu, PathPrefixes := [unhexD pre] }
+    ({ s with backends := b :: s.backends.filter (fun x => x.BackendID != b.BackendID) }, "ok")
+  | ["store", bid, rid, u] =>
+    ({ s with reqs := ((unhexD bid, unhexD rid), { user := unhexD u, contents := [], completed := false }) :: s.reqs.filter (fun p => p.1 != (unhexD bid, unhexD rid)) }, "ok")
+  | ["agent", id, ep, bid, rid] =>
+    let c : AppAuth.Caller := { oauth := if id == "-" then none else some (unhexD id), oauthAdmin := false, user := none, userAdmin := false }
+    let e : AppAuth.AgentEp := if ep == "fetch" then .fetch else if ep == "respond" then .respond else .list
+    let (st, _, s') := AppAuth.agentCall s c e (unhexD bid) (unhexD rid) [1]
+    (s', toString st)
+  | ["admin", adm, op] =>
+    let c : AppAuth.Caller := { oauth := some [97], oauthAdmin := adm == "1", user := none, userAdmin := false }
+    let o : AppAuth.AdminOp := if op == "list" then .listBackends else if op == "add" then .addBackend ⟨[101], [120], [97], [[47]]⟩ else .deleteBackend [101]
+    let (st, _, s') := AppAuth.adminCall s c o
+    (s', toString st)
+  | _ => (s, "bad-op")
+
+/-- suite `apprelay`: `parts <len>` ↦ number of part entities `newBlob` writes for a payload of that length (regenerated arithmetic) -/
+def apprelayStep (_ : Unit) : List String → Unit × String
+  | ["parts", n] =>
+    let l := natD n
+    ((), toString (if Gen.store_inlineTest l then 0 else Gen.store_partCount (l - Gen.store_fieldByteLimit)))
+  | _ => ((), "bad-op")
+
 def main (args : List String) : IO UInt32 := do
   let stdin ← IO.getStdin
   let stdout ← IO.getStdout
   match args with
   | ["backoff"] => loop stdin stdout backoffStep (); return 0
+  | ["apprelay"] => loop stdin stdout apprelayStep (); return 0
+  | ["appauth"] => loop stdin stdout appauthStep { backends := [], reqs := [], resps := [] }; return 0
   | ["srw"] => loop stdin stdout srwStep (); return 0
   | ["shimlife"] => loop stdin stdout shimlifeStep (ShimLife.init 10); return 0
   | ["relay"] => loop stdin stdout relayStep Relay.init; return 0
